@@ -138,21 +138,24 @@ Record state := {
   s_reds : list red   (* redelegation entries, ordered like the store iterates them *);
   s_ubds : list ubd   (* unbonding entries *);
   s_paid : list (Z * Z)   (* rewards paid out so far, by account *);
+  s_mig : list Z   (* accounts with a migrate record (old and new addresses) *);
   s_height : Z
 }.
 
 Definition set_vals (x : list vstate) (s : state) : state :=
-  {| s_vals := x; s_allow := s_allow s; s_reds := s_reds s; s_ubds := s_ubds s; s_paid := s_paid s; s_height := s_height s |}.
+  {| s_vals := x; s_allow := s_allow s; s_reds := s_reds s; s_ubds := s_ubds s; s_paid := s_paid s; s_mig := s_mig s; s_height := s_height s |}.
 Definition set_allow (x : list (akey * Z)) (s : state) : state :=
-  {| s_vals := s_vals s; s_allow := x; s_reds := s_reds s; s_ubds := s_ubds s; s_paid := s_paid s; s_height := s_height s |}.
+  {| s_vals := s_vals s; s_allow := x; s_reds := s_reds s; s_ubds := s_ubds s; s_paid := s_paid s; s_mig := s_mig s; s_height := s_height s |}.
 Definition set_reds (x : list red) (s : state) : state :=
-  {| s_vals := s_vals s; s_allow := s_allow s; s_reds := x; s_ubds := s_ubds s; s_paid := s_paid s; s_height := s_height s |}.
+  {| s_vals := s_vals s; s_allow := s_allow s; s_reds := x; s_ubds := s_ubds s; s_paid := s_paid s; s_mig := s_mig s; s_height := s_height s |}.
 Definition set_ubds (x : list ubd) (s : state) : state :=
-  {| s_vals := s_vals s; s_allow := s_allow s; s_reds := s_reds s; s_ubds := x; s_paid := s_paid s; s_height := s_height s |}.
+  {| s_vals := s_vals s; s_allow := s_allow s; s_reds := s_reds s; s_ubds := x; s_paid := s_paid s; s_mig := s_mig s; s_height := s_height s |}.
 Definition set_paid (x : list (Z * Z)) (s : state) : state :=
-  {| s_vals := s_vals s; s_allow := s_allow s; s_reds := s_reds s; s_ubds := s_ubds s; s_paid := x; s_height := s_height s |}.
+  {| s_vals := s_vals s; s_allow := s_allow s; s_reds := s_reds s; s_ubds := s_ubds s; s_paid := x; s_mig := s_mig s; s_height := s_height s |}.
+Definition set_mig (x : list Z) (s : state) : state :=
+  {| s_vals := s_vals s; s_allow := s_allow s; s_reds := s_reds s; s_ubds := s_ubds s; s_paid := s_paid s; s_mig := x; s_height := s_height s |}.
 Definition set_height (x : Z) (s : state) : state :=
-  {| s_vals := s_vals s; s_allow := s_allow s; s_reds := s_reds s; s_ubds := s_ubds s; s_paid := s_paid s; s_height := x |}.
+  {| s_vals := s_vals s; s_allow := s_allow s; s_reds := s_reds s; s_ubds := s_ubds s; s_paid := s_paid s; s_mig := s_mig s; s_height := x |}.
 
 
 (* validators are addressed by index *)
@@ -512,7 +515,9 @@ Inductive op :=
 | ExportImport (zero : bool) (ord : list Z)   (* app.ExportAppStateAndValidators(forZeroHeight = zero) + InitChain of a
                                                  fresh app; ord = the delegators in address order (the order of
                                                  GetAllDelegations) *)
-| Reverted (o : op).                          (* o called from a contract frame that reverts afterwards *)
+| Reverted (o : op)                           (* o called from a contract frame that reverts afterwards *)
+| Migrate (from to : Z).                      (* x/migrate MsgMigrateAccount: `to` takes over from's delegations,
+                                                 starting infos, unbonding and redelegation entries *)
 
 Definition max_entries : Z := 7.
 
@@ -611,6 +616,35 @@ Fixpoint slash_reds (v ih frac : Z) (l : list red) (s : state) (tot : Z) : res (
              end
       else slash_reds v ih frac r s tot
   end.
+
+(* validator operators are the accounts 100 + i *)
+Definition op_base : Z := 100.
+
+(* ---------- x/migrate/keeper/distr_staking.go: DistrStakingMigrate ---------- *)
+(* move the record of `from` (if any) under the key `to` *)
+Definition krename {A} (from to : Z) (m : list (Z * A)) : list (Z * A) :=
+  match kget from m with Some x => kset to x (kdel from m) | None => m end.
+(* Execute: delegation + starting info of every validator *)
+Definition migrate_v (from to : Z) (v : vstate) : vstate :=
+  set_start (krename from to (v_start v)) (set_dels (krename from to (v_dels v)) v).
+(* redelegation records are re-keyed (record, by-source index, by-destination index, queue): the entries move
+   to where the store keeps the new delegator's; entries of one redelegation stay in creation order *)
+Definition reds_rename (from to : Z) (l : list red) : list red :=
+  fold_left (fun acc e => red_insert {| r_del := to; r_src := r_src e; r_dst := r_dst e; r_h := r_h e;
+                                        r_bal := r_bal e; r_sh := r_sh e |} acc)
+            (filter (fun e => r_del e =? from) l) (filter (fun e => negb (r_del e =? from)) l).
+Definition ubds_rename (from to : Z) (l : list ubd) : list ubd :=
+  map (fun e => if u_del e =? from then {| u_del := to; u_val := u_val e; u_h := u_h e; u_init := u_init e;
+                                           u_bal := u_bal e |} else e) l.
+(* Validate: neither address is a validator operator; `to` has no delegation, unbonding delegation or
+   redelegation; MigrateAccount: neither address has a migrate record.  (That `from` is an account with a
+   cosmos secp256k1 public key is the caller's business: the harness only migrates such accounts.) *)
+Definition migrate_ok (from to : Z) (s : state) : bool :=
+  negb (from =? to) && negb (op_base <=? from) && negb (op_base <=? to) &&
+  negb (existsb (Z.eqb from) (s_mig s)) && negb (existsb (Z.eqb to) (s_mig s)) &&
+  negb (existsb (fun v => khas to (v_dels v)) (s_vals s)) &&
+  negb (existsb (fun e => u_del e =? to) (s_ubds s)) &&
+  negb (existsb (fun e => r_del e =? to) (s_reds s)).
 
 (* ---------- app/export.go: prepForZeroHeightGenesis, the part that touches one validator ---------- *)
 (* "withdraw all delegator rewards" (at the export height), collecting what was paid *)
@@ -777,6 +811,13 @@ Definition exec (s : state) (o : op) : res state :=
               (pay_all (snd x) (set_vals (fst x) s))))))
       else Ok (set_allow [] s)
   | Reverted _ => Err                                (* the frame's writes are discarded *)
+  | Migrate from to =>
+      if migrate_ok from to s then
+        Ok (set_mig (from :: to :: s_mig s)
+              (set_reds (reds_rename from to (s_reds s))
+              (set_ubds (ubds_rename from to (s_ubds s))
+              (set_vals (map (migrate_v from to) (s_vals s)) s))))
+      else Err
   end.
 
 (* a failing call leaves the state as it was *)
@@ -792,7 +833,6 @@ Definition run (s : state) (ops : list op) : state := fold_left (fun st o => fst
 (* What InitGenesis leaves for a genesis validator whose operator (account 100+i) self-delegated
    `power_reduction` tokens: staking sets tokens/shares/delegation directly; the distribution hooks
    (AfterValidatorCreated, BeforeDelegationCreated, AfterDelegationModified) run at height 0. *)
-Definition op_base : Z := 100.
 Definition gen_v (i : Z) : vstate :=
   {| v_tokens := power_reduction; v_shares := dec_of_int power_reduction;
      v_status := 0; v_jailed := false; v_ubh := 0;
@@ -803,7 +843,7 @@ Definition gen_v (i : Z) : vstate :=
 Fixpoint gen_vals (n : nat) (i : Z) : list vstate :=
   match n with O => [] | S m => gen_v i :: gen_vals m (i + 1) end.
 Definition gen_state (n : nat) : state :=
-  {| s_vals := gen_vals n 0; s_allow := []; s_reds := []; s_ubds := []; s_paid := []; s_height := 1 |}.
+  {| s_vals := gen_vals n 0; s_allow := []; s_reds := []; s_ubds := []; s_paid := []; s_mig := []; s_height := 1 |}.
 
 (* ---------- the two entry points, parametrised by their call-path facts ---------- *)
 (* Which caller-side value an entry point hands on: contract.Caller(), args.From or args.To.  The facts of
